@@ -70,7 +70,8 @@ def cases_functions(tier):
                     elif K:
                         fmaps += [([0], [-1]), ([-1], [0])]
                     else:
-                        fmaps += [([0], None)]
+                        # ([1], None): the filter configured first is used by no function (objects are looked up by configured index)
+                        fmaps += [([0], None), ([1], None)]
                     for omf, cmf in fmaps:
                         for ms in ((1,) if quick else (0, 1, R)):
                             yield "R%dJ%dK%dB%d/%s/est=%s%s/flt=%s,%s/min=%d" % (R, J, K, B, "".join("F" if f else "o" for f in mask), "+".join(est), emap, omf, cmf, ms), {
@@ -88,6 +89,16 @@ def cases_stddev(tier):
                 yield "R%d/w=%s/%s/flt=%s" % (R, wts, "".join("F" if f else "o" for f in mask), flt), {
                     "R": R, "J": 1, "K": 0, "B": 1, "failed": mask, "est": ["stddev"], "omap_est": None, "cmap_est": None, "omap_flt": flt, "cmap_flt": None,
                     "min_success": 1, "cw": wts}
+    # the same evaluator (and estimator object) has already evaluated another point with another failure pattern: nothing of
+    # that evaluation may survive into this one
+    for R, wts, prior, mask in ((3, [0.2, 0.3, 0.5], [False, False, False], [False, True, False]), (3, [0.2, 0.3, 0.5], [True, False, False], [False, False, False]),
+                                (4, [0.25, 0.25, 0.0, 0.5], [False, False, False, False], [False, True, False, False])):
+        if tier == "quick" and R == 4:
+            continue
+        for flt in (None, [0]):
+            yield "R%d/w=%s/%s/flt=%s/after-%s" % (R, wts, "".join("F" if f else "o" for f in mask), flt, "".join("F" if f else "o" for f in prior)), {
+                "R": R, "J": 1, "K": 0, "B": 1, "failed": mask, "est": ["stddev"], "omap_est": None, "cmap_est": None, "omap_flt": flt, "cmap_flt": None,
+                "min_success": 1, "cw": wts, "prior_failed": prior}
 
 
 def scn_functions(T, case):
@@ -120,6 +131,11 @@ def scn_functions(T, case):
     ev = H.make_evaluator(T, ch, cfg, sev, filters=filters, estimators=ests)
     x = T.real("x", (N,) if B == 1 else (B, N))
     try:
+        if case.get("prior_failed") is not None:
+            pnan = np.array(case["prior_failed"], dtype=bool)
+            keep, O[0] = O[0], T.real("O_prior", (R, J), nan=np.repeat(pnan[:, None], J, axis=1))
+            ev.calculate(T.real("x_prior", (N,)), compute_functions=True, compute_gradients=False)
+            O[0] = keep
         results = ev.calculate(x, compute_functions=True, compute_gradients=False)
     except OptimizationAborted:
         # only the stddev estimator may abort: fewer than two realizations with non-zero normalised weight
